@@ -31,7 +31,7 @@ pub struct Op {
     /// user slot (index into the list of users ever created, modulo)
     #[serde(default)]
     pub u: usize,
-    /// verify: "right" "wrong" "other" "unknown-uid"; create_user: password index
+    /// verify: "right" "wrong" "other" "unknown-uid" "empty" "unknown-uid-empty" "empty-uid" "prefix" "case"; create_user: password index
     #[serde(default)]
     pub pw: String,
     /// create_session: "default" | "zero" | "long"
@@ -91,7 +91,7 @@ impl Prop for C17 {
         }
     }
     fn rule(&self) -> &'static str {
-        "One case = one history of up to 60 operations over 1..5 users {create_user, remove_user, verify(right/wrong/other user's/unknown uid), create_session(default / lifetime 0 / long), refresh, invalidate by token, invalidate by user, get_uid_by_token, authenticated-route request over the simulated network with a valid / stale / absent cookie, advance the virtual wall clock to expiry-1s / expiry / expiry+1s / far future}, with or without a pepper, checked against a reference model after every step. Distinct = distinct sequence of (operation, outcome); non-trivial = at least one session created and the clock moved across or onto an expiry boundary."
+        "One case = one history of up to 60 operations over 1..5 users {create_user, remove_user, verify(right / wrong / other user's / a prefix / other case / the empty password, for live, removed, unknown and empty uids), create_session(default / lifetime 0 / long), refresh, invalidate by token, invalidate by user, get_uid_by_token, authenticated-route request over the simulated network with a valid / stale / absent cookie, advance the virtual wall clock to expiry-1s / expiry / expiry+1s / far future}, with or without a pepper, checked against a reference model after every step. Distinct = distinct sequence of (operation, outcome); non-trivial = at least one session created and the clock moved across or onto an expiry boundary."
     }
     fn assumptions(&self) -> Vec<String> {
         vec![
@@ -123,7 +123,7 @@ impl Prop for C17 {
                 o.op = "remove_user".into();
             } else if r < 18 {
                 o.op = "verify".into();
-                o.pw = ["right", "wrong", "other", "unknown-uid"][rng.usize_below(4)].into();
+                o.pw = ["right", "wrong", "other", "unknown-uid", "empty", "unknown-uid-empty", "empty-uid", "prefix", "case"][rng.usize_below(9)].into();
             } else if r < 40 {
                 o.op = "create_session".into();
                 o.lifetime = ["default", "default", "zero", "long"][rng.usize_below(4)].into();
@@ -249,6 +249,14 @@ impl Prop for C17 {
                                 (users[i].uid.clone(), if users[j].pw != users[i].pw { users[j].pw.clone() } else { pw }, false)
                             }
                             "unknown-uid" => ("00000000-0000-4000-8000-000000000000".to_string(), users[i].pw.clone(), false),
+                            // the empty password (no user is created with it), for a known user (alive
+                            // or removed), for a uid nobody has, and with the empty uid
+                            "empty" => (users[i].uid.clone(), String::new(), false),
+                            "unknown-uid-empty" => ("00000000-0000-4000-8000-000000000000".to_string(), String::new(), false),
+                            "empty-uid" => (String::new(), if step % 2 == 0 { String::new() } else { users[i].pw.clone() }, false),
+                            // a proper prefix of the right password, and the right password in another case
+                            "prefix" => (users[i].uid.clone(), { let n = users[i].pw.chars().count(); users[i].pw.chars().take(n.saturating_sub(1)).collect::<String>() }, false),
+                            "case" => (users[i].uid.clone(), users[i].pw.to_ascii_uppercase(), false),
                             _ => (users[i].uid.clone(), format!("{}x", users[i].pw), false),
                         };
                         let got = st.auth.lock().unwrap().verify(&uid, &pw);
